@@ -575,8 +575,10 @@ func capped(w *wspec, maxw, maxh int, limit int) bool {
 	if maxw == 65535 || maxh == 65535 {
 		return true // documented panic before allocating
 	}
-	if w.hasCursorList() && maxh > 300 {
-		return false // the gutter loop writes 2*Max.Height cells: quadratic in the list-based model
+	if w.hasCursorList() && (maxh > 300 || maxw > 300) {
+		// the gutter loop writes 2*Max.Height cells (quadratic in the list-based model) and the
+		// cursor surface has Max.Width * (height of the first item) cells
+		return false
 	}
 	return maxw*maxh <= limit
 }
